@@ -765,3 +765,17 @@ PROPS["C10"]["claim"] = PROPS["C10"]["claim"] + " Stored node counts reach the l
 PROPS["C10"]["does_not_cover"] = [x for x in PROPS["C10"]["does_not_cover"] if "insert_ref_count" not in x]
 PROPS["C14"]["claim"] = PROPS["C14"]["claim"] + " The record under assembly (Verus, unbounded): insert_index / insert_ref_count / insert_value change exactly the named chunk or slot of the record and accumulate the modified-slot mask."
 PROPS["C09"]["level_note"] = PROPS["C09"]["level_note"].replace("Trusted: LogWriter::insert_index contract (recorder);", "LogWriter::insert_index's contract (the recorder of U3) is proved by Verus unit log_writer against a contract of std HashMap;")
+
+# ---------------------------------------------------------------- U45 (Verus fragment of process_commits)
+UNIT_META["commit_apply"] = {"functions": ["db::DbInner::process_commits (apply step: from the opening of the log record to the retirement of the commit from the commit overlay; fragment)"],
+                             "assumes": ["the fragment is wrapped by a hand-written method (rule R8); the write guard of `self.commit_overlay` becomes a &mut parameter; the two statements updating the logged-bytes counter behind `log_queue_wait` are dropped (listed rewrites)",
+                                         "IndexedChangeSet / BTreeChangeSet::{write_plan, clean_overlay}, Column::complete_plan, Log::{begin_record, end_record}, LogWriter::{record_id, drain} are contracts (opaque effects on the record; clean_overlay may change the overlay arbitrarily and must be called with the id of the commit the change set belongs to)",
+                                         "vstd has no HashMap::iter_mut: the two loops over btree change sets iterate by shared reference and the btree callees take `&self` (listed rewrites); their effect on the change set itself is outside the unit",
+                                         "every column id named by the commit indexes self.columns and the overlay vector (precondition)"]}
+PROPS["C16"]["verus_units"] = list(PROPS["C16"].get("verus_units", [])) + ["commit_apply"]
+PROPS["C01"]["verus_units"] = PROPS["C01"]["verus_units"] + ["commit_apply"]
+PROPS["C16"]["claim"] = PROPS["C16"]["claim"] + " Reads after a failed step (Verus, unbounded over the change sets): the apply step of process_commits leaves the commit overlay exactly as it was whenever planning, completing the plan or appending the record to the log fails, so reads keep returning the accepted transaction; the commit's entries are retired only after Log::end_record returned Ok and only under the commit's own id."
+PROPS["C01"]["claim"] = PROPS["C01"]["claim"].replace("(record assembly, Verus)", "the commit's entries leave the commit overlay only after Log::end_record returned Ok -- the log overlay then holds the record -- and under the commit's own id (Verus, fragment of process_commits); (record assembly, Verus)")
+PROPS["C01"]["does_not_cover"] = [x for x in PROPS["C01"]["does_not_cover"] if "order of end_record and clean_overlay" not in x] + ["Log::end_record publishing the record into the log overlay (hash-map iteration by value)"]
+PROPS["C16"]["technique"] = PROPS["C16"]["technique"] + "; Verus contract on the apply step of process_commits (fragment extracted on every run)"
+PROPS["C16"]["does_not_cover"] = ["which operations fail and that each failure is propagated to store_err (error paths through `?`)", "reads after a failure other than of the apply step of process_commits", "state after reopen (prefix of commits)", "no panic on I/O errors"]
